@@ -51,8 +51,9 @@ def mapped(I, h, max_ops=3):
     ops = iters.drain(I, h.call("vm", "bytecode::BytecodeMapped::ops", [h.ref(bm)]))
     if len(ops) != len(ref): raise Violation("ops() yields a different number of operations", E.model_for())
     for k, (x, it) in enumerate(zip(ops, ref)): same_op(E, x, it, sp, f"ops()[{k}]")
-    for k in range(len(ref) + 2):
-        o = h.call("vm", "bytecode::BytecodeMapped::op", [h.ref(bm), Int("usize", k if k <= len(ref) else (1 << 64) - 1)])
+    probe = sorted(set(list(range(len(ref) + 3)) + [n - 1, n, n + 1, (1 << 64) - 1]) - {-1})
+    for k in probe:
+        o = h.call("vm", "bytecode::BytecodeMapped::op", [h.ref(bm), Int("usize", k)])
         if k < len(ref):
             if o.variant != "Some": raise Violation(f"op({k}) is None inside the program", E.model_for())
             same_op(E, o.cells[0].v, ref[k], sp, f"op({k})")
@@ -65,7 +66,7 @@ def mapped(I, h, max_ops=3):
     ints_eq(E, seq_vals(h.call("vm", "bytecode::BytecodeMapped::bytecode", [h.ref(bm2)])), bs, "from_iter(ops).bytecode()")
     ints_eq(E, seq_vals(h.call("vm", "bytecode::BytecodeMapped::op_indices", [h.ref(bm2)])), idx, "from_iter(ops).op_indices()")
     # OpAccess agrees pointwise with the op list
-    for k in range(len(ref) + 1):
+    for k in probe:
         a = h.call("vm", "<&BytecodeMapped<Op, Bytes> as OpAccess>::op_access", [h.ref(h.ref(bm)), Int("usize", k)])
         if k < len(ref):
             if a.variant != "Some" or a.cells[0].v.variant != "Ok": raise Violation(f"op_access({k}) not Some(Ok)", E.model_for())
